@@ -1,0 +1,15 @@
+//go:build verif
+// +build verif
+
+package pipe
+
+// VerifC21Len reports, for the out-of-tree verification harness (property C21), the number of buffered
+// bytes under the pipe's mutex, or -1 once the buffer has been released.
+func (p *Pipe) VerifC21Len() int {
+	p.mu.Lock()
+	defer p.mu.Unlock()
+	if p.b == nil {
+		return -1
+	}
+	return p.b.Len()
+}
